@@ -88,6 +88,36 @@ impl Prop for C12 {
                 enumerate(len, interval, &mut v);
             }
         }
+        // the remainder can be carried across two sleeps only from four events on: depth 4 for two intervals
+        // also in the quick tier
+        if tier == Tier::Quick {
+            for interval in [2u64, 3] {
+                enumerate(4, interval, &mut v);
+            }
+        }
+        // excluded points of the theorems' hypotheses (`0 < interval`, time-ordered): the model has the
+        // panics of the code as outcomes; compared model-vs-code, not judged
+        for len in 0..=3 {
+            enumerate(len, 0, &mut v);
+        }
+        for (k, h) in [
+            &["in 10", "out 5"][..],
+            &["in 10", "sample 9", "consume"][..],
+            &["out 10", "in 5"][..],
+            &["out 10", "sample 3"][..],
+            &["in 5", "out 10", "in 20", "out 15", "in 30", "consume"][..],
+            &["sample 100", "sample 99"][..],
+            &["out 0", "in 7", "in 6"][..],
+        ]
+        .iter()
+        .enumerate()
+        {
+            for interval in [1u64, 3] {
+                let mut ops = vec![format!("interval {interval}")];
+                ops.extend(h.iter().map(|s| s.to_string()));
+                v.push(Case { name: format!("unordered{k}i{interval}"), ops });
+            }
+        }
         v
     }
     fn generate(&self, rng: &mut Rng, _tier: Tier, _index: u64) -> Vec<String> {
@@ -104,8 +134,14 @@ impl Prop for C12 {
         // gaps beyond 2^32 ns / timestamps near 2^62
         let scale = *rng.pick(&[1u64, 1, 3, interval, interval / 2 + 1, interval * 3, interval * 5000, 1 << 34, 1 << 45]);
         let mut t = if rng.chance(1, 12) { (1u64 << 62) + rng.below(1000) } else { rng.below(1000) };
+        // 1 in 25 histories steps back in time somewhere (excluded point, model-vs-code only); 1 in 40 has interval 0
+        let backstep_at = if rng.chance(1, 25) { Some(rng.below(len)) } else { None };
+        let interval = if rng.chance(1, 40) { 0 } else { interval };
         let mut ops = vec![format!("interval {interval}")];
-        for _ in 0..len {
+        for k in 0..len {
+            if backstep_at == Some(k) {
+                t = t.saturating_sub(1 + rng.below(scale + 2));
+            }
             let inc = match rng.below(5) {
                 0 => 0,
                 1 => rng.below(3),
